@@ -65,7 +65,7 @@ def run(ctx):
     if rc != 0:
         raise vlib.ToolError("config driver failed: " + out[-2000:])
     recs = [json.loads(l) for l in open(trace)]
-    rv = vlib.tlc("ConfigTrace.tla", "ConfigTrace.cfg", workers=1, timeout=3000, env={"TRACE": trace},
+    rv = vlib.tlc("ConfigTrace.tla", "ConfigTrace.cfg", workers=1, timeout=12000, env={"TRACE": trace},
                   metadir=os.path.join(ctx.out, "tv"), heap="6g")
     if rv.error or rv.violated or rv.printed("TOOLERR"):
         open(os.path.join(ctx.out, "tv.log"), "w").write(rv.out)
